@@ -164,7 +164,7 @@ pub fn dap_check(prop: &str, tier: &str) -> i32 {
         timeout: Duration::from_secs(90),
         params,
         level: "exploration".into(),
-        rule: if prop == "C15" { "DAP leg: one case = one (program, history of readMemory / writeMemory (1..40 bytes, any alignment, data and stack) / stackTrace / scopes / variables / setVariable / setExpression at breakpoint stops); every read is compared with /proc/<pid>/mem, every write with a byte mirror of the executable's data and the stack taken before the request (exactly [a, a+n) may change), set values must be shown by the response and change no more than the variable's own bytes; every write is undone by the harness".to_string() } else if prop == "C13" { "one case = one (program, history of setBreakpoints / setFunctionBreakpoints / setInstructionBreakpoints with condition, hitCondition or logMessage, before start, after start and around restart, interleaved with configurationDone / continue / restart); which addresses a request denotes is asked of the core (twin Debugger), where the program must stop next comes from the reference execution, where it really is from PTRACE_GETREGS + TICK, which addresses are patched from the process text; distinct = distinct canonical wire log; non-trivial = at least 3 requests".to_string() } else { "one case = one (program, adaptive request history with argument mutation, interleaving of the session thread and the stdout/stderr forwarder threads chosen at the H1 schedule points from the run's tape); the recorded wire log is checked for one response per request, seq = 1,2,3.. in wire order, event uniqueness/causality and silence after `terminated`; distinct = distinct canonical wire log + schedule; non-trivial = at least 3 requests".to_string() },
+        rule: if prop == "C08" { "DAP leg: one case = one (program, adaptive request history in which every second request has its arguments mutated: null, empty, wrong type, huge/negative numbers, arrays, nested objects, strings) against the real DebugSession; the only violations are a panic of the adapter or DebugSession::run returning an error while the client is still connected".to_string() } else if prop == "C15" { "DAP leg: one case = one (program, history of readMemory / writeMemory (1..40 bytes, any alignment, data and stack) / stackTrace / scopes / variables / setVariable / setExpression at breakpoint stops); every read is compared with /proc/<pid>/mem, every write with a byte mirror of the executable's data and the stack taken before the request (exactly [a, a+n) may change), set values must be shown by the response and change no more than the variable's own bytes; every write is undone by the harness".to_string() } else if prop == "C13" { "one case = one (program, history of setBreakpoints / setFunctionBreakpoints / setInstructionBreakpoints with condition, hitCondition or logMessage, before start, after start and around restart, interleaved with configurationDone / continue / restart); which addresses a request denotes is asked of the core (twin Debugger), where the program must stop next comes from the reference execution, where it really is from PTRACE_GETREGS + TICK, which addresses are patched from the process text; distinct = distinct canonical wire log; non-trivial = at least 3 requests".to_string() } else { "one case = one (program, adaptive request history with argument mutation, interleaving of the session thread and the stdout/stderr forwarder threads chosen at the H1 schedule points from the run's tape); the recorded wire log is checked for one response per request, seq = 1,2,3.. in wire order, event uniqueness/causality and silence after `terminated`; distinct = distinct canonical wire log + schedule; non-trivial = at least 3 requests".to_string() },
         assumptions: vec![
             "schedule points sit outside every critical section, so the explored interleavings are exactly those distinguishable on the wire".into(),
             "the simulated transport never blocks; in the real adapter the session holds the transport mutex while waiting for the client, which admits the same wire orders".into(),
@@ -175,7 +175,7 @@ pub fn dap_check(prop: &str, tier: &str) -> i32 {
             "simulated": ["DAP client (seeded adaptive generator)", "transport (in-memory DapTransport)", "thread scheduler at hook points (tape-driven)"],
             "stub": ["TCP/stdio framing (Content-Length) not exercised"]
         }),
-        required_probes: if prop == "C15" { vec!["c15.dap_read_ok_compared".into(), "c15.dap_write_ok".into(), "c15.dap_set_ok".into()] } else if prop == "C13" { vec!["c13.set_requests_checked".into(), "c13.runs_checked".into(), "c13.expected_stop".into(), "c13.expected_exit".into(), "c13.sets_before_start".into(), "c13.sets_after_start".into(), "c13.breakpoints_with_options".into(), "c13.multi_location_breakpoints".into(), "c13.text_checked_after_set".into()] } else { vec!["c12.requests".into(), "c12.output_events".into(), "c12.decisions_with_choice".into(), "c12.forwarder_released_between_seq_and_lock_with_rivals".into(), "c12.error_responses".into(), "c12.stopped_events".into()] },
+        required_probes: if prop == "C08" { vec!["c12.requests".into(), "c12.error_responses".into()] } else if prop == "C15" { vec!["c15.dap_read_ok_compared".into(), "c15.dap_write_ok".into(), "c15.dap_set_ok".into()] } else if prop == "C13" { vec!["c13.set_requests_checked".into(), "c13.runs_checked".into(), "c13.expected_stop".into(), "c13.expected_exit".into(), "c13.sets_before_start".into(), "c13.sets_after_start".into(), "c13.breakpoints_with_options".into(), "c13.multi_location_breakpoints".into(), "c13.text_checked_after_set".into()] } else { vec!["c12.requests".into(), "c12.output_events".into(), "c12.decisions_with_choice".into(), "c12.forwarder_released_between_seq_and_lock_with_rivals".into(), "c12.error_responses".into(), "c12.stopped_events".into()] },
         budget: Duration::from_secs(600),
     };
     orch::run_check(cfg, ws, corpus_info)
@@ -249,10 +249,63 @@ pub fn layer_b_check(prop: &str, tier: &str) -> i32 {
     orch::run_check(cfg, ws, corpus_info)
 }
 
+pub fn session_check(prop: &str, tier: &str) -> i32 {
+    let seed = seed_from_env();
+    let histories = if tier == "quick" { 14 } else { 300 };
+    let histories = std::env::var("BSSIM_HISTORIES").ok().and_then(|s| s.parse().ok()).unwrap_or(histories);
+    let specs: Vec<progen::ProgramSpec> = ["1.89", "stable", "nightly"].iter().map(|tc| crate::session::arena_program(tc)).collect();
+    let corpus = orch::build_corpus(specs, false);
+    if corpus.progs.is_empty() {
+        eprintln!("HARNESS-ERROR empty corpus");
+        return 2;
+    }
+    let corpus_info = json!({"family": "arena (std program: integers, floats, tuples, structs, enums, arrays, Vec, String, slices, HashMap/HashSet, BTreeMap/BTreeSet, VecDeque, Box, Rc<RefCell>, Arc, Option, raw pointers, union, ZST, closure)", "programs": corpus.progs.len(), "rejected": corpus.rejected});
+    let dir = scratch_dir(prop);
+    let mut ws = vec![];
+    let mut idx = 0u64;
+    let mut params: BTreeMap<String, Value> = BTreeMap::new();
+    params.insert("max_ops".into(), json!(if tier == "quick" { 50 } else { 80 }));
+    for (p, b) in &corpus.progs {
+        for _ in 0..histories {
+            ws.push(WorkerSpec { property: prop.into(), mode: "session".into(), seed: rng::derive(seed, prop, idx), run_idx: idx, program: p.clone(), bin: b.bin.to_string_lossy().into(), src_file: b.src_file.clone(), tape: None, out: dir.join(format!("r{idx}.json")).to_string_lossy().into(), params: params.clone() });
+            idx += 1;
+        }
+    }
+    let cfg = CheckCfg {
+        prop: prop.into(),
+        tier: tier.into(),
+        seed,
+        mode: "session".into(),
+        programs: corpus.progs.len(),
+        histories,
+        det_pairs: if tier == "quick" { 16 } else { 64 },
+        timeout: Duration::from_secs(120),
+        params,
+        level: "fault_enumeration".into(),
+        rule: "one case = one console-level session of 20-70 command lines (grammar-derived print/arg/vard expressions with field, index, slice, deref, address, canonic and pointer-cast operators over ~35 variables of every supported type, frame/thread/memory/register/source/symbol/break/watch/call/async commands, and mutated lines: huge numbers, unicode, truncation, repetition) parsed by the crate's Command::parse and executed by the crate's handlers and renderers against a debugger stopped in the arena debuggee, while the harness overwrites the debuggee's frame and heap with hostile patterns between commands and may SIGKILL it; a panic, a hang, a probe that no longer answers or a panic in Drop is a violation; distinct = distinct canonical session log; non-trivial = at least 3 commands".into(),
+        assumptions: vec![
+            "a panic anywhere in the worker is caught by the panic hook and reported with the command line being executed; a hang by the orchestrator's wall-clock backstop (reproduced by a second run before it is reported)".into(),
+            "errors are the expected outcome of hostile input and are never violations".into(),
+        ],
+        real_stub: json!({
+            "real": ["ui::command::parser (Command::parse, expression parser)", "ui::command::*::Handler (print, memory, register, backtrace, frame, thread, break, watch, call, symbol, sharedlib)", "ui::generic::variable::render_variable", "bugstalker::debugger (DQE executor, value parser, std-collection specialisations, unwinder)", "real kernel, real debuggee memory"],
+            "simulated": ["the user (seeded command-line generator with mutation)", "memory corruption of the debuggee (harness writes through /proc/<pid>/mem)", "external SIGKILL at a seeded command index"],
+            "stub": ["rustyline editor / TUI / console printing (results are rendered to strings and dropped)", "continue/run commands are not issued (the session stays at one stop)"]
+        }),
+        required_probes: vec!["c08.commands_parsed".into(), "c08.parse_errors".into(), "c08.commands_ok".into(), "c08.commands_err".into(), "c08.fault_memory_poisoned".into(), "c08.fault_debuggee_killed".into(), "c08.sessions_completed".into()],
+        budget: Duration::from_secs(600),
+    };
+    orch::run_check(cfg, ws, corpus_info)
+}
+
 /// Run two legs of one property and merge their evidence into /verif/evidence/<prop>.json.
 fn two_legs(prop: &str, tier: &str, second: fn(&str, &str) -> i32, name: &str) -> i32 {
+    two_legs_of(prop, tier, layer_a_check, second, name)
+}
+
+fn two_legs_of(prop: &str, tier: &str, first: fn(&str, &str) -> i32, second: fn(&str, &str) -> i32, name: &str) -> i32 {
     let path = format!("{}/evidence/{prop}.json", orch::VERIF);
-    let a = layer_a_check(prop, tier);
+    let a = first(prop, tier);
     let ev_a: Value = std::fs::read_to_string(&path).ok().and_then(|s| serde_json::from_str(&s).ok()).unwrap_or(json!({}));
     let b = second(prop, tier);
     let ev_b: Value = std::fs::read_to_string(&path).ok().and_then(|s| serde_json::from_str(&s).ok()).unwrap_or(json!({}));
@@ -280,6 +333,7 @@ pub fn check(prop: &str, tier: &str) -> i32 {
         "C11" | "C14" => two_legs(prop, tier, layer_b_check, "leg_layer_b"),
         "C15" => two_legs(prop, tier, dap_check, "leg_dap"),
         "C09" | "C10" => layer_b_check(prop, tier),
+        "C08" => two_legs_of(prop, tier, session_check, dap_check, "leg_dap"),
         "C01" | "C02" | "C03" | "C05" | "C16" => layer_a_check(prop, tier),
         "C12" | "C13" => dap_check(prop, tier),
         _ => {
